@@ -392,8 +392,14 @@ def deleteMarker (s : State) (caller : Addr) (d : Denom) : Except Err State := d
   validate m3
   pure (s1.setMarker m3)
 
-/-- `accountControlsAllSupply` (marker.go:868) -/
+/-- `accountControlsAllSupply` (marker.go:868, after the fix a784a9d34): the caller holds the whole
+bank supply of the denom and that supply is positive. -/
 def controlsAllSupply (s : State) (caller : Addr) (m : Marker) : Bool :=
+  0 < s.bank.supply m.denom && s.bank.supply m.denom = s.bank.bal caller m.denom
+
+/-- the rule before a784a9d34: the caller's balance equals the *recorded* supply (which a
+floating-supply marker never updates). Kept only for the `…_before_fix` witness. -/
+def controlsAllSupplyPreFix (s : State) (caller : Addr) (m : Marker) : Bool :=
   s.bank.bal caller m.denom = m.supply
 
 /-- the authorisation prefix shared by `AddAccess` / `RemoveAccess` (marker.go:92-107,134-149) -/
